@@ -267,6 +267,13 @@ func C14(c *core.Ctx) {
 			}
 		}
 	}
+	// hand-written journals from the odd corners of the valid input space through every command
+	for _, t := range oddJournals() {
+		for _, cp := range cmdPool {
+			muts = append(muts, mut{text: t, argv: cp.argv, rep: cp.rep})
+		}
+	}
+	nm = len(muts)
 	mcases := make([]map[string]any, nm)
 	core.Parallel(nm, func(k int) {
 		dir := filepath.Join(root, fmt.Sprintf("m%d", k))
